@@ -151,4 +151,8 @@ def run(tier, seed):
                                        "trace": {"observed": me[5]}})
     finally:
         shutil.rmtree(tmp, ignore_errors=True)
+    # through the command line: `python -m nauyaca serve --config <file>` with four access-control sections
+    import livetls
+    livetls.run_cli_policies(res, tier)
+    res.rule += " | plus the CLI: serve --config with default-deny-only / allow-loopback / deny-loopback / deny-other policies, request from 127.0.0.1"
     return res
